@@ -402,6 +402,19 @@ impl Spec {
         (sk, pk)
     }
 
+    /// the private half of DeriveDiffieHellmanKeyPair only (no scalar multiplication)
+    pub fn derive_dh_sk(&self, seed: &[u8]) -> Vec<u8> {
+        match self.ke {
+            Ke::Prime(g) => self.oprf.derive_key_in(g, seed, b"OPAQUE-DeriveDiffieHellmanKeyPair"),
+            Ke::X25519 => {
+                let mut k = seed.to_vec();
+                k[0] &= 248;
+                k[31] &= 127;
+                k[31] |= 64;
+                k
+            }
+        }
+    }
     /// per-credential OPRF key (RFC 9807 5.2.2 / 6.3.2.2)
     pub fn oprf_key(&self, oprf_seed: &[u8], cred_id: &[u8]) -> Vec<u8> {
         let seed = self.expand(oprf_seed, &cat(&[cred_id, b"OprfKey"]), self.nok());
